@@ -1027,6 +1027,10 @@ def handle (line : String) : String :=
     else if cmd.startsWith "gc." then handleGc cmd args
     else if cmd = "occ.trace" then handleOcc args
     else if cmd = "create.trace" then handleCreate args
+    else if cmd = "lock.poll" then
+      (match args.mapM String.toNat? with
+       | some (t :: sleeps) => (match DSV.Lock.pollLoop t 0 sleeps with | some el => s!"timeout@{el}" | none => "none")
+       | _ => "bad-op")
     else if cmd = "lock.frun" then handleFrun args
     else if cmd = "lock.srun" then handleSrun args
     else if cmd.startsWith "rng." || cmd.startsWith "retry." || cmd.startsWith "ls." then handleBackend cmd args
